@@ -94,6 +94,17 @@ def gen_panel(r, g, n_geos, n_dates, cls='continuous', id_style='str', origin=No
       feats.append('late')
     vals[i] = sizes[i] * (10.0 + 0.5 * loadings[i] * common + 0.5 * noise_sc[i] * eps)
   present = np.ones((G, D), dtype=bool)
+  if cls == 'dyadic':
+    # integer-valued series whose totals are exact power-of-two multiples of one another: geo shares are dyadic
+    # fractions, so volume ratios such as 2.0, 1.5, 0.5 occur EXACTLY in floating point (values on a bound)
+    unit_sizes = [r.choice([1, 1, 2, 2, 4, 8]) for _ in range(G)]
+    pattern = np.round(200 + 30 * np.sin(2 * np.pi * t / 7.0 + 1.0) + 10 * common).astype(np.int64)
+    pattern = np.maximum(pattern, 20)
+    for i in range(G):
+      noise = np.round(g.normal(0, 6.0 * noise_sc[i] + 1.0, size=D)).astype(np.int64)
+      noise[-1] -= noise.sum()                      # zero-sum integer noise: the total stays size * sum(pattern)
+      vals[i] = unit_sizes[i] * pattern + noise
+    feats.append('dyadic')
   if cls == 'duplicates' and G >= 3:
     a, b = r.sample(range(G), 2)
     vals[b] = vals[a]
